@@ -54,6 +54,12 @@ def call_forms(body_src, args_src, arity, atoms_only):
     forms = {"direct": f"f::{{{body_src}}};f({a})",
              "inline": f"{{{body_src}}}({a})",
              "variable": f"f::{{{body_src}}};g::f;g({a})"}
+    if arity < 3:
+        # nested function literals mention parameters of their OWN (here y and z, which the outer function does not have): the outer
+        # function takes the parameters its own body mentions
+        forms["helper-local"] = f"f::{{[h];h::{{:[1;y;x]}};h(0;{body_src})}};f({a})"
+        forms["helper-inline"] = f"f::{{{{:[1;z;x,y]}}(0;0;{body_src})}};f({a})"
+        forms["helper-defined-inside"] = f"f::{{h::{{:[1;z;x,y]}};{body_src}}};f({a})"
     if arity == 0:
         # a nilad: no parameter to bind, so nothing but the frame itself carries .f
         forms["nested"] = f"f::{{{body_src}}};w::{{x;f()}};w(7)"
